@@ -221,7 +221,7 @@ func (f *kvFixture) Seeds() []seed { return f.w.seeds }
 func (f *kvFixture) Reset() error  { return f.v.reset() }
 func (f *kvFixture) Close()        { f.v.close() }
 func (f *kvFixture) Semantic() []string {
-	return []string{"short-cipher", "acl-head", "key-type", "timestamp", "key-peer-id", "empty-inner", "many"}
+	return []string{"short-cipher", "acl-head", "key-type", "timestamp", "key-peer-id", "long-key", "empty-inner", "many"}
 }
 
 func (f *kvFixture) Digest() (string, error) {
@@ -293,6 +293,7 @@ func (f *kvFixture) Mutate(in In, base seed) ([]byte, bool) {
 	p := &spacesyncproto.StoreKeyValue{KeyPeerId: src.KeyPeerId}
 	inner.TimestampMicro += 1000 + int64(in.B) // newer than what the victim may hold
 	n := 1
+	consistent := true
 	switch in.Kind {
 	case "short-cipher":
 		l := []int{0, 1, 11, 12, 13, 27, 28}[mutate.Mod(in.A, 7)]
@@ -311,9 +312,14 @@ func (f *kvFixture) Mutate(in In, base seed) ([]byte, bool) {
 	case "timestamp":
 		inner.TimestampMicro = []int64{0, -1, -1 << 63, 1<<63 - 1, 1 << 53}[mutate.Mod(in.A, 5)]
 	case "key-peer-id":
+		consistent = false
 		p.KeyPeerId = []string{"", "other-key-other-peer", strings.Repeat("k", 70000), src.KeyPeerId + "\x00"}[mutate.Mod(in.A, 4)]
+	case "long-key":
+		// a key of arbitrary content and length, filed under the slot it names
+		n := []int{0, 1, 300, 70000}[mutate.Mod(in.A, 4)]
+		inner.Key = strings.Repeat(string(rune('a'+in.B%26)), n)
 		if in.C&1 == 1 {
-			inner.Key = strings.Repeat("x", 1+mutate.Mod(in.B, 3000))
+			inner.Key += "\x00-\xff/../"
 		}
 	case "empty-inner":
 		inner = &spacesyncproto.StoreKeyInner{}
@@ -324,6 +330,11 @@ func (f *kvFixture) Mutate(in In, base seed) ([]byte, bool) {
 		n = []int{50, 1000}[mutate.Mod(in.A, 2)]
 	default:
 		return nil, false
+	}
+	if consistent {
+		if pk, err := crypto.UnmarshalEd25519PublicKeyProto(inner.Peer); err == nil {
+			p.KeyPeerId = inner.Key + "-" + pk.PeerId()
+		}
 	}
 	p.Value, _ = inner.MarshalVT()
 	f.resign(p)
